@@ -1,19 +1,27 @@
 /-!
 # Model `Timers` (C12) — `ractor/src/time.rs` on tokio's paused clock
 
-Core Lean only. One target actor, any number of timer tasks, a virtual clock in **ms**
-(tokio timers have 1 ms granularity; the harness only uses whole-millisecond durations).
+Core Lean only. One target actor, any number of timer tasks, a virtual clock in **µs**; periods
+and clock advances are arbitrary numbers of microseconds.
+
+Runtime axiom (tokio's timer wheel, stated explicitly as `wheelDeadline`): the wheel has 1 ms
+granularity and rounds deadlines UP — a `Sleep` with exact deadline `x` (µs since the runtime
+started) is registered at tick `deadline_to_tick(x) = ⌈x / 1 ms⌉` and completes in the first
+driver turn whose clock has reached that tick, i.e. as soon as `now ≥ ceilMs x`. `Interval` re-arms
+its `Sleep` at the exact instants `armed + k·p` (no accumulated rounding), each rounded up the same
+way, so several ticks of a sub-millisecond period complete back to back in one poll.
 
 What is modelled, line by line from `time.rs`:
 
 * `send_after(p)`  : `spawn(async { sleep(p).await; actor.send_message(msg()) })` — the `Sleep`
   is created at the task's **first poll** (`armed`), the deadline is `armed + p`, the message
   builder is called once, the send result is the task's output (`ok` / `err`).
-* `send_interval(p)`: `interval(p)` created at the first poll, the first tick completes
-  immediately and is skipped, then `while ACTIVE_STATES.contains(status) { tick().await;
+* `send_interval(p)`: `interval(p)` created at the first poll, the first tick (deadline = that
+  very instant, rounded up by the wheel: immediately on the millisecond grid) is skipped, then `while ACTIVE_STATES.contains(status) { tick().await;
   if send(msg()).is_err() { break } }`.  tokio's `Interval` (default `Burst`) ticks at
   `armed + k·p`, so the deadline of the next tick is `armed + (attempts+1)·p`.
-* `exit_after(p)` / `kill_after(p)`: `sleep(p)` then `stop(Some("Exit after {p}ms"))` / `kill()`.
+* `exit_after(p)` / `kill_after(p)`: `sleep(p)` then
+  `stop(Some(format!("Exit after {}ms", p.as_millis())))` (the millisecond count TRUNCATES) / `kill()`.
 * `JoinHandle::abort` : a pending task never runs again (`cancelled`).
 * target: `send_message` is refused once the status is ≥ Draining (`closedAt`); `stop` and `kill`
   go to one-shot ports (the first request wins) and are acted on when the target's task next runs,
@@ -60,10 +68,28 @@ structure Timer where
   res : Res := .pending
   /-- clock value at which the task ended (returned or was aborted) -/
   finAt : Option Nat := none
+  /-- `interval` only: the first, "immediate" tick of `interval(period)` has completed. Its `Sleep`
+  is asked for the instant of the first poll itself and is rounded up by the wheel like any other:
+  an interval created off the millisecond grid reaches its loop head only at the next boundary. -/
+  primed : Bool := false
   deriving DecidableEq, Repr
 
-/-- Deadline the task is sleeping towards, given the instant `a` of its first poll. -/
-def Timer.deadline (τ : Timer) (a : Nat) : Nat := a + (τ.sentAt.length + 1) * τ.period
+/-- `x` µs rounded up to a whole number of milliseconds -/
+def ceilMs (x : Nat) : Nat := (x + 999) / 1000 * 1000
+
+/-- RUNTIME AXIOM (tokio timer wheel, 1 ms granularity, deadlines rounded up): a sleep created at
+`armed` for `p` µs completes as soon as the clock has reached `wheelDeadline armed p`. -/
+def wheelDeadline (armed p : Nat) : Nat := ceilMs (armed + p)
+
+/-- the exact instant the task's current `Sleep` was asked for, given the instant `a` of its first
+poll: `a + p` for the one-shot timers, `a + (k+1)·p` for the k+1-st tick of an interval -/
+def Timer.exact (τ : Timer) (a : Nat) : Nat := a + (τ.sentAt.length + 1) * τ.period
+
+/-- Deadline at which the wheel completes that `Sleep`. -/
+def Timer.deadline (τ : Timer) (a : Nat) : Nat := wheelDeadline a ((τ.sentAt.length + 1) * τ.period)
+
+/-- `Duration::as_millis` of a period in µs -/
+def asMillis (p : Nat) : Nat := p / 1000
 
 def Kind.oneShot : Kind → Bool
   | .interval => false
@@ -146,14 +172,20 @@ def ivAwait (now id a : Nat) : Nat → Timer → Target → Timer × Target
     else (τ, T)
 
 /-- at the first poll `sleep(period)` / `interval(period)` is created: the timer is armed -/
-def Timer.arm (τ : Timer) (now : Nat) : Timer := { τ with armed := some (τ.armed.getD now) }
+def Timer.arm (τ : Timer) (now : Nat) : Timer :=
+  { τ with armed := some (τ.armed.getD now), primed := τ.armed.isSome && τ.primed }
 
-/-- One poll of an armed, pending timer task (`a` = instant of its first poll, `first` = this is it). -/
-def fireArmed (now id a : Nat) (first : Bool) (τ : Timer) (T : Target) : Timer × Target :=
+def Timer.prime (τ : Timer) : Timer := { τ with primed := true }
+
+/-- One poll of an armed, pending timer task (`a` = instant of its first poll). -/
+def fireArmed (now id a : Nat) (τ : Timer) (T : Target) : Timer × Target :=
   match τ.kind with
   | .interval =>
-    -- first poll: the first tick completes immediately and is skipped; loop head
-    if first && !T.active then (τ.finish .ok now, T) else ivAwait now id a (now + 1) τ T
+    if τ.primed then ivAwait now id a (now + 1) τ T
+    else if wheelDeadline a 0 ≤ now then
+      -- the first tick completes and is skipped; loop head
+      if !T.active then (τ.prime.finish .ok now, T) else ivAwait now id a (now + 1) τ.prime T
+    else (τ, T)
   | .sendAfter =>
     if τ.deadline a ≤ now then
       if T.accepts then ((τ.attempt now).finish .ok now, T.push (id, τ.sentAt.length + 1))
@@ -161,7 +193,7 @@ def fireArmed (now id a : Nat) (first : Bool) (τ : Timer) (T : Target) : Timer 
     else (τ, T)
   | .exitAfter =>
     if τ.deadline a ≤ now then
-      ((τ.attempt now).finish .ok now, T.stop (.exitAfter τ.period))
+      ((τ.attempt now).finish .ok now, T.stop (.exitAfter (asMillis τ.period)))
     else (τ, T)
   | .killAfter =>
     if τ.deadline a ≤ now then ((τ.attempt now).finish .ok now, T.kill)
@@ -170,7 +202,7 @@ def fireArmed (now id a : Nat) (first : Bool) (τ : Timer) (T : Target) : Timer 
 /-- One poll of timer task `id`. -/
 def fireOne (now id : Nat) (τ : Timer) (T : Target) : Timer × Target :=
   if τ.res ≠ .pending then (τ, T)
-  else fireArmed now id (τ.armed.getD now) τ.armed.isNone (τ.arm now) T
+  else fireArmed now id (τ.armed.getD now) (τ.arm now) T
 
 structure State where
   now : Nat := 0
@@ -258,12 +290,12 @@ def earlyOk (base p : Nat) : Nat → List Nat → Bool
   | _, [] => true
   | k, t :: ts => decide (base + (k + 1) * p ≤ t) && earlyOk base p (k + 1) ts
 
-/-- no quiescent point `c` at or after the deadline `base + k·p` precedes the k-th action:
-the k-th action happens at the first quiescent point that reaches its deadline. -/
+/-- no quiescent point `c` at or after the wheel deadline `ceilMs (base + k·p)` precedes the k-th
+action: the k-th action happens at the first quiescent point that reaches its deadline. -/
 def promptOk (base p : Nat) (visits : List Nat) : Nat → List Nat → Bool
   | _, [] => true
   | k, t :: ts =>
-    visits.all (fun c => !decide (c < t) || decide (c < base + (k + 1) * p)) && promptOk base p visits (k + 1) ts
+    visits.all (fun c => !decide (c < t) || decide (c < ceilMs (base + (k + 1) * p))) && promptOk base p visits (k + 1) ts
 
 /-- one-shot timers act at most once; the handle tells what happened -/
 def shotOk (τ : Timer) : Bool :=
@@ -304,7 +336,7 @@ def reasonOk (s : State) (r : Reason) (te : Nat) : Bool :=
   | .killed => s.target.manualKill ||
       s.timers.any (fun τ => τ.kind == .killAfter && τ.sentAt.any (fun t => decide (t ≤ te)))
   | .exitAfter ms =>
-      s.timers.any (fun τ => τ.kind == .exitAfter && τ.period == ms && τ.sentAt.any (fun t => decide (t ≤ te)))
+      s.timers.any (fun τ => τ.kind == .exitAfter && asMillis τ.period == ms && τ.sentAt.any (fun t => decide (t ≤ te)))
 
 def handledOk (s : State) (h : Nat × Nat × Nat) : Bool :=
   match s.timers[h.1]? with
@@ -329,18 +361,20 @@ def targetOk (s : State) : Bool :=
 /-- C12, clauses that hold for every schedule of the small steps. -/
 def ok (s : State) : Bool := s.timers.all (timerOk s) && targetOk s
 
-/-- an interval whose target left the active states is gone within one period -/
+/-- an interval whose target left the active states is gone within one period (wheel deadline) —
+or, if it was created after that off the millisecond grid, at the next millisecond boundary -/
 def diesOk (s : State) (τ : Timer) : Bool :=
   match s.target.closedAt with
-  | some tc => !(τ.kind == .interval && τ.res == .pending) || decide (s.now < tc + τ.period)
+  | some tc => !(τ.kind == .interval && τ.res == .pending) ||
+      decide (s.now < ceilMs (tc + τ.period)) || decide (s.now < ceilMs τ.created)
   | none => true
 
 def timerPromptOk (s : State) (τ : Timer) : Bool :=
-  -- closed form, no drift: action k at the first quiescent point ≥ created + k·period
+  -- closed form, no drift: action k at the first quiescent point ≥ ceilMs (created + k·period)
   promptOk τ.created τ.period s.visits 0 τ.sentAt
   && diesOk s τ
   -- at a quiescent point every pending one-shot timer is strictly before its deadline
-  && (!(τ.kind.oneShot && τ.res == .pending) || decide (s.now < τ.created + τ.period))
+  && (!(τ.kind.oneShot && τ.res == .pending) || decide (s.now < ceilMs (τ.created + τ.period)))
 
 /-- C12, clauses that hold at the quiescent points of a macro run. -/
 def okPrompt (s : State) : Bool := s.timers.all (timerPromptOk s)
